@@ -78,6 +78,7 @@ func Run(o Options) (*Report, error) {
 			}
 			astutil.AddNamedImport(p.Fset, f, "vrt", VrtPath)
 			in.pruneImports(f)
+			stripComments(f)
 			var buf bytes.Buffer
 			if err := format.Node(&buf, p.Fset, f); err != nil {
 				return nil, fmt.Errorf("print %s: %v", name, err)
@@ -94,6 +95,26 @@ func Run(o Options) (*Report, error) {
 	}
 	sort.Strings(rep.Packages)
 	return rep, nil
+}
+
+// stripComments drops free-floating comments from a rewritten file: go/printer places comments by
+// position, and after statements were inserted or replaced a comment can land inside an expression
+// and produce code that does not parse. Build constraints and other compiler directives (which sit
+// before the package clause or directly above a top-level declaration) are kept.
+func stripComments(f *ast.File) {
+	var keep []*ast.CommentGroup
+	for _, g := range f.Comments {
+		directive := false
+		for _, c := range g.List {
+			if strings.HasPrefix(c.Text, "//go:") || strings.HasPrefix(c.Text, "// +build") || strings.HasPrefix(c.Text, "//line ") {
+				directive = true
+			}
+		}
+		if directive || g.End() < f.Package {
+			keep = append(keep, g)
+		}
+	}
+	f.Comments = keep
 }
 
 type inst struct {
